@@ -1938,8 +1938,10 @@ PROPS = {
         'stored_value_typed', 'blank_is_empty_value', 'other_type_rejected', 'bool_rejected_for_integer_line',
         'int_rejected_for_money_line', 'money_is_rounded', 'input_form_line_total']],
         assumptions=['round(x, n) idempotent is a hypothesis of money_is_rounded, discharged for the F64 model in Proofs/F64Lemmas (range stated there)']),
-    'C14': dict(run=run_C14, theorems=['HabuVerif.C14.solution_reads_back', 'HabuVerif.C14.bool_reads_back', 'HabuVerif.C14.money_reads_back_partial'],
-        assumptions=["PARTIAL for money: float('%.nf' % x) == x for rounded x is a hypothesis of money_reads_back_partial, validated bit-exactly by the f64/fields streams, not proved",
+    'C14': dict(run=run_C14, theorems=['HabuVerif.C14.solution_reads_back', 'HabuVerif.C14.bool_reads_back', 'HabuVerif.C14.money_reads_back_partial',
+        'HabuVerif.C14.money_reads_back', 'HabuVerif.C14.stored_money_reads_back', 'HabuVerif.C14.catalogue_places_2021',
+        'HabuVerif.C14.catalogue_places_2022', 'HabuVerif.C14.catalogue_places_2023', 'HabuVerif.C14.placesOK_spec'],
+        assumptions=["money: proved for binary64 and places 0, 2, 5 (all the places any float line uses: catalogue_places_*, regenerated); round/format/float are the integer model of Py/F64.lean + Py/Str.lean, compared bit for bit with CPython by the f64/fields streams",
                      'text values: without surrounding blanks / comment-like continuation lines (SolutionOk); excluded classes behave as recorded in DESIGN.md']),
     'C20': dict(run=run_C20, theorems=['HabuVerif.C20.answers_and_file_kept', 'HabuVerif.C20.file_left_behind_wellformed', 'HabuVerif.C20.rerun_does_not_ask_again'],
         assumptions=['the process is not killed DURING the write itself (the file is opened with truncation): outside the listed interruption kinds and outside the model',
